@@ -86,7 +86,7 @@ MEMO_GRAMMARS = (
 
 def _sample_descriptions(tier, seed):
     rnd = random.Random(seed)
-    n = 60 if tier == 'quick' else 600
+    n = 36 if tier == 'quick' else 600
     pool = [d for d in G.two_rule(3, 2, 'core', 'core') if 'choice' in S.kinds_of(d[0][1])]
     out = rnd.sample(pool, min(n, len(pool)))
     out += rnd.sample(G.two_rule(2, 2), min(n // 2, 3114))
@@ -272,7 +272,8 @@ def run(tier='quick', seed=0, info=None):
         work.append((f'lr/{name}', text, G.inputs(alpha, n if len(alpha) <= 4 else n - 1), False))
     for name, text, alpha in MEMO_GRAMMARS:
         work.append((f'memo/{name}', text, G.inputs(alpha, n + 1 if len(alpha) <= 3 else n), True))
-    results = pmap(_work, chunked(work, JOBS * 4))
+    work.sort(key=lambda w: -len(w[2]) * (2 if w[3] else 1))  # one grammar per job, the largest first
+    results = pmap(_work, [[w] for w in work])
     stats = {'grammars': 0, 'cases': 0, 'nontrivial': 0, 'parseinfo_seen': 0, 'skipped': 0}
     failures, counts, samples = [], {}, []
     for st, fs, cn, sm in results:
